@@ -293,6 +293,9 @@ func wideGrid(r *hx.Rng, budget int, huge int) []wideSpec {
 		if n > 600 {
 			w.Layout = "one"
 		}
+		if n == 0 {
+			w.Temps = 0 // the nested-scope temporaries read v0
+		}
 		if c == "gen" && (w.Form == "tail" || w.Form == "ret1") {
 			w.Form = "mid3"
 		}
@@ -528,6 +531,15 @@ func linesMain(o *hx.Opts, extra map[string]string) {
 		if w, ok := parseWide(spec); ok {
 			cases = append(cases, lineCase{fmt.Sprintf("c%d", i), w.String(), w.source(), true})
 		}
+	}
+	if path := extra["file"]; path != "" {
+		// replay / debugging: analyse one program from disk (markers honoured when it uses the k<line> convention)
+		b, err := os.ReadFile(path)
+		if err != nil {
+			fmt.Fprintln(os.Stderr, err)
+			os.Exit(2)
+		}
+		cases = append(cases, lineCase{"f0", "file:" + sanitizeName(path), string(b), true})
 	}
 	nwide, _ := strconv.Atoi(extra["wide"])
 	nhuge, _ := strconv.Atoi(extra["huge"])
